@@ -135,6 +135,11 @@ def gen_crash(rng, n, tier):
             g.queries()
             g.ops.append(f"crash S={s} J={j} C={c} B={b} " + g.new_block_args())
             g.ops.append("chainmeta")
+            if i % 2 == 0:
+                # a starting node opens the stores more than once (the ledger, then the read-only view ledger on the same stores; and
+                # every later restart): the store a recovery leaves behind must open again
+                g.ops.append("reopen")
+                g.ops.append("chainmeta")
             # continue: the remaining blocks must execute and give a consistent chain
             g.ops.append("persist " + g.new_block_args())
             g.ops.append("persist " + g.new_block_args())
@@ -155,6 +160,9 @@ def gen_crash(rng, n, tier):
                         g.persist()
                     g.ops.append(f"crashw ks={ks} kc={kc} B={b} " + g.new_block_args())
                     g.ops.append("chainmeta")
+                    if (ks + kc + b) % 2 == 0:
+                        g.ops.append("reopen")
+                        g.ops.append("chainmeta")
                     g.ops.append("persist " + g.new_block_args())
                     g.ops.append("chainmeta")
                     g.ops.append(f"getblock {h} full")
@@ -284,6 +292,32 @@ def tags_store(h, obs):
 
 def mon_c11(h, obs):
     """recoverOK: opens, height in {h-1,h}, head readable, stores mutually consistent, continuation works"""
+    return _mon_c11_reopen(h, obs) + _mon_c11_crash(h, obs)
+
+
+def _mon_c11_reopen(h, obs):
+    """the store a recovery left behind is opened once more (the view ledger of the same start, the next restart): it must open, at the
+    same height"""
+    hits = []
+    recovered = None      # (crash op, height it reopened at) of the last crash the ledger recovered from
+    for op, o in zip(h.ops, obs):
+        if op == "reopen" and recovered is not None:
+            m2 = re.match(r"ok h=(\d+) state=(\d+)", o or "")
+            if not m2:
+                hits.append(Hit("C11/recovered-store-does-not-open-again", f"after the recovery from `{recovered[0][:40]}` (reopened at height {recovered[1]}) a second open of the same stores fails: {o}", recovered[0]))
+                break
+            if int(m2.group(1)) != recovered[1] or int(m2.group(2)) != recovered[1]:
+                hits.append(Hit("C11/recovered-store-opens-elsewhere", f"after the recovery from `{recovered[0][:40]}` at height {recovered[1]} a second open gives chain {m2.group(1)} / state {m2.group(2)}", recovered[0]))
+                break
+        if op.startswith("persist"):
+            recovered = None
+        if op.startswith("crash"):
+            mr = re.match(r"h=(\d+) opened chain=(\d+) state=(\d+)", o or "")
+            recovered = (op, int(mr.group(2))) if mr and mr.group(2) == mr.group(3) else None
+    return hits
+
+
+def _mon_c11_crash(h, obs):
     hits = []
     for i, (op, o) in enumerate(zip(h.ops, obs)):
         if not op.startswith("crash"):
